@@ -280,3 +280,127 @@ def one_variant(case, scheme, mode, units, r, tg, h):
                 if cls is not None and st == 'ok' and len(z.branches) > 0:
                     cmp_solution(z, sub['res']['x'], what, opname, node_of_label=lambda lab: cls[node_idx[lab]])
             unchanged(what)
+
+
+# ------------------------------------------------------------------------------------------------------------------
+# direction (B): random larger networks through the real transformers, judged by TLC (spec/trace/Trace_C16.tla)
+def G(n, d=1):
+    from fractions import Fraction
+    q = Fraction(n, d)
+    return [[q.numerator, q.denominator], [0, 1]]
+
+
+def abstract_element(kind, val):
+    z = [[0, 1], [0, 1]]
+    if kind == 'R':
+        return {'f': 'N', 'imm': G(val), 'src': z, 'k': 'resistor', 'a': [G(val)]}
+    if kind == 'V':
+        return {'f': 'N', 'imm': z, 'src': G(val), 'k': 'voltage_source', 'a': [G(val), z]}
+    if kind == 'VL':
+        return {'f': 'N', 'imm': G(val), 'src': G(val + 1), 'k': 'voltage_source', 'a': [G(val + 1), G(val)]}
+    if kind == 'I':
+        return {'f': 'T', 'imm': z, 'src': G(val), 'k': 'current_source', 'a': [G(val), z]}
+    if kind == 'IL':
+        return {'f': 'T', 'imm': G(1, val), 'src': G(val), 'k': 'current_source', 'a': [G(val), G(1, val)]}
+    if kind == 'S':
+        return {'f': 'N', 'imm': z, 'src': z, 'k': 'short_circuit', 'a': []}
+    return {'f': 'T', 'imm': z, 'src': z, 'k': 'open_circuit', 'a': []}
+
+
+def random_network(rng, nmax=6, bmax=7):
+    n = rng.randint(3, nmax)
+    nb = rng.randint(n - 1, bmax)
+    br = []
+    # a random spanning tree first (connected), then extra branches; many shorts
+    nodes = list(range(n))
+    rng.shuffle(nodes)
+    pairs = [(nodes[i], rng.choice(nodes[:i])) for i in range(1, n)]
+    while len(pairs) < nb:
+        a, b = rng.sample(range(n), 2)
+        pairs.append((a, b))
+    for k, (a, b) in enumerate(pairs):
+        kind = rng.choices(['S', 'R', 'V', 'VL', 'I', 'IL', 'O'], weights=[14, 5, 2, 1, 1, 1, 1])[0]
+        if rng.random() < 0.5:
+            a, b = b, a
+        br.append({'id': k + 1, 'n1': a, 'n2': b, 'e': abstract_element(kind, rng.randint(1, 3))})
+    return br, rng.randrange(n)
+
+
+def frac_gauss(z):
+    from fractions import Fraction
+    z = complex(z)
+    re, im = Fraction(z.real).limit_denominator(100000), Fraction(z.imag).limit_denominator(100000)
+    return [[re.numerator, re.denominator], [im.numerator, im.denominator]]
+
+
+def extra(tier, seed, ctx, pool):
+    import random
+    from ..trace import judge
+    from ..netbuild import project_network
+    rng = random.Random(seed * 31 + 16)
+    n_nets = 240 if tier == "quick" else 3000
+    events, meta = [], {}
+    ops = [('remove_short_circuit_elements', trf.remove_short_circuit_elements), ('remove_ideal_voltage_sources', trf.remove_ideal_voltage_sources),
+           ('passive_network', trf.passive_network), ('remove_open_circuit_elements', None), ('remove_ideal_current_sources', trf.remove_ideal_current_sources)]
+    tid = 0
+    for _ in range(n_nets):
+        br, ref = random_network(rng)
+        scheme = rng.randrange(N_SCHEMES)
+        naming = Naming(scheme)
+        try:
+            net, ids = build_network(br, ref, naming, 0, (0, 0))
+        except Exception:
+            continue            # e.g. the reference touches nothing: not a valid network
+        rid = {v: k for k, v in ids.items()}
+        rnode = {naming.node(n): n for n in range(8)}
+        exemptable = [b['id'] for b in br if b['e']['k'] == 'short_circuit' or b['e']['src'] != [[0, 1], [0, 1]]]
+        for opname, fn in ops:
+            keep_ids = sorted(rng.sample(exemptable, rng.randint(0, min(2, len(exemptable))))) if exemptable and rng.random() < 0.6 else []
+            keep = [bb.element for bb in net.branches if rid[bb.id] in keep_ids]
+            try:
+                out = trf.remove_open_circuit_elements(net) if fn is None else fn(net, keep=keep)
+            except Exception as e:
+                # only a reference left without branches is a legitimate rejection; TLC cannot judge a missing result
+                tid += 1
+                meta[tid] = (opname, br, ref, keep_ids, scheme, repr(e))
+                events.append({'tid': tid, 'op': 'raised', 'br': [], 'ref': 0, 'keep': [], 'out': [], 'outref': 0})
+                continue
+            pn = project_network(out)
+            try:
+                ob = [{'id': rid[b['id']], 'n1': rnode[b['n1']], 'n2': rnode[b['n2']], 'e': {'f': b['f'], 'imm': frac_gauss(b['imm']), 'src': frac_gauss(b['src'])}} for b in pn['br']]
+                oref = rnode[pn['ref']]
+            except KeyError as e:
+                ob, oref = [], -1
+            tid += 1
+            meta[tid] = (opname, br, ref, keep_ids, scheme, None)
+            events.append({'tid': tid, 'op': opname, 'ref': ref, 'keep': keep_ids, 'outref': oref,
+                           'br': [{'id': b['id'], 'n1': b['n1'], 'n2': b['n2'], 'e': {'f': b['e']['f'], 'imm': b['e']['imm'], 'src': b['e']['src']}} for b in br],
+                           'out': ob})
+    real = [e for e in events if e['op'] != 'raised']
+    verdicts, info = judge('Trace_C16.tla', real)
+    counts = {}
+    for ev in events:
+        opname, br, ref, keep_ids, scheme, exc = meta[ev['tid']]
+        r = CaseResult(case_id=f'trace{ev["tid"]}')
+        r.tags = ['trace', 'op:' + opname.replace('remove_short_circuit_elements', 'contract')]
+        r.observations = 1
+        if ev['op'] == 'raised':
+            # accepted only when the specification's result would be an invalid network (decided here conservatively: never for these ops
+            # unless the reference lost all its branches) - counted, not judged
+            r.skipped = 'raised:' + exc.split('(')[0]
+            yield (json_dumps({'trace_event': ev['tid'], 'op': opname, 'br': br, 'ref': ref, 'keep': keep_ids}), r)
+            continue
+        v = verdicts[ev['tid']]['v']
+        counts[v] = counts.get(v, 0) + 1
+        if v.startswith('skipped'):
+            r.skipped = v
+        elif v != 'ok':
+            r.mismatches.append({'what': f'{opname}(keep={keep_ids}) judged by Trace_C16', 'got': repr(ev['out']), 'want': 'a result the specification allows',
+                                 'signature': f'trace:{opname}:{v}', 'detail': f'scheme={scheme}'})
+        yield (json_dumps({'trace_event': ev['tid'], 'op': opname, 'br': br, 'ref': ref, 'keep': keep_ids, 'out': ev['out'], 'scheme': scheme}), r)
+    yield {'trace_validation': dict(info, verdicts=counts, module='Trace_C16.tla')}
+
+
+def json_dumps(x):
+    import json
+    return json.dumps(x)
